@@ -7,6 +7,8 @@
   ALG layer: the code, function by function — `BitStore.frombytes/frombuffer/tobytes/_copy/getslice_msb0/__len__`
   (bitstore.py), `Bits._setbytes_with_truncation`, the BytesIO branch of `_setauto`, `_setfile`,
   `BitArray.__init__`'s copy, `_getbytes`, `cut`, `tofile` (bits.py), `Array.tobytes/tofile/fromfile` (array_.py).
+  Option state: `lsb0` reaches this property only through `Bits._slice` in the `cut` loop of `tofile`
+  (the window readers call `getslice_msb0` explicitly).
   bitarray primitives are list operations: `bitarray.frombytes` = `bytesToBits`, `bitarray.tobytes` =
   `baToBytes` (a byte-at-a-time loop that zero-fills the last byte), `ba[a:b]` = Python slicing.
   Bytes are `Nat`s (< 256 wherever they come from the wire or from `baToBytes`).
@@ -85,8 +87,9 @@ def Store.mem (b : Bits) : Store := ⟨b, none, false⟩
 def Store.frombytes (data : Bytes) : Store := ⟨bytesToBits data, none, false⟩
 
 /-- `BitStore.frombuffer(buffer, length)` (bitstore.py:61): a view on the mapped buffer; a negative or too large
-    length is a CreationError; a length shorter than the buffer is read into memory (`_bitarray[:length]`,
-    `modified_length = None`), so `modified_length` survives only when it equals the buffer length. -/
+    length is a CreationError; a length shorter than the buffer is read into memory (`_bitarray[:length]`);
+    in every case the store ends with `modified_length = None` ("the bitarray now holds exactly the bits
+    that are wanted"). -/
 def Store.frombuffer (data : Bytes) (length : Option Int) : Except Err Store :=
   let buf := bytesToBits data
   match length with
@@ -94,8 +97,7 @@ def Store.frombuffer (data : Bytes) (length : Option Int) : Except Err Store :=
   | some n =>
     if n < 0 then .error .value
     else if n > buf.length then .error .value
-    else if n < buf.length then .ok ⟨pySlice buf none (some n), none, true⟩
-    else .ok ⟨buf, some n.toNat, true⟩
+    else .ok ⟨if n < buf.length then pySlice buf none (some n) else buf, none, true⟩
 
 /-- `BitStore.__len__` (bitstore.py:276). -/
 def Store.len (s : Store) : Nat :=
@@ -120,6 +122,17 @@ def Store.getslice (s : Store) (start stop : Option Int) : Store :=
     ⟨pySlice s.buf (some t.1) (some t.2.1), none, false⟩
   | none => ⟨pySlice s.buf start stop, none, false⟩
 
+/-- `BitStore.getslice_lsb0(start, stop)` (bitstore.py:232) through `offset_slice_indices_lsb0` (bitstore.py:21)
+    for a step-less slice: `start, stop = slice.indices(len(self))`, then
+    `_bitarray[len - stop : len - start]` — the same positions counted from the other end. -/
+def Store.getsliceLsb0 (s : Store) (start stop : Option Int) : Store :=
+  let t := Py.sliceIndices start stop 1 s.len
+  ⟨pySlice s.buf (some ((s.len : Int) - t.2.1)) (some ((s.len : Int) - t.1)), none, false⟩
+
+/-- `BitStore.getslice`: rebound by `options.lsb0` (bitstring_options.py `set_lsb0`). -/
+def Store.getsliceMode (lsb0 : Bool) (s : Store) (start stop : Option Int) : Store :=
+  if lsb0 then s.getsliceLsb0 start stop else s.getslice start stop
+
 /-- `s.bin` = `slice_to_bin(None, None)` = `getslice(None, None)._bitarray.to01()`. -/
 def Store.bin (s : Store) : Bits := (s.getslice none none).buf
 
@@ -140,8 +153,8 @@ def setBytes (data : Bytes) (length offset : Option Int) : Except Err Store :=
       if length + offset > nbits then .error .value
       else .ok ((Store.frombytes data).getslice (some offset) (some (offset + length)))
 
-/-- The `io.BytesIO` branch of `Bits._setauto(s, length, offset)` (bits.py:518-536);
-    `_setauto_no_length_or_offset` (bits.py:500) when both are None. -/
+/-- The `io.BytesIO` branch of `Bits._setauto(s, length, offset)` (bits.py:523-541; the final cut is
+    `getslice_msb0`); `_setauto_no_length_or_offset` (bits.py:505) when both are None. -/
 def setBytesIO (data : Bytes) (length offset : Option Int) : Except Err Store :=
   match offset, length with
   | none, none => .ok (Store.frombytes data)
@@ -157,10 +170,9 @@ def setBytesIO (data : Bytes) (length offset : Option Int) : Except Err Store :=
       .ok ((Store.frombytes (pySlice data (some byteoffset) (some (byteoffset + bytelength)))).getslice
             (some offset) (some (offset + length)))
 
-/-- `Bits._setfile(filename, length, offset)` (bits.py:547) on a file holding `data`.
-    `mmap.mmap(fileno, 0)` raises ValueError for an empty file — before anything else is looked at. -/
+/-- `Bits._setfile(filename, length, offset)` (bits.py:552) on a file holding `data` (an empty file is mapped as
+    the empty buffer `b''`); offset windows are cut with `getslice_msb0` whatever `options.lsb0` says. -/
 def setFile (data : Bytes) (length offset : Option Int) : Except Err Store :=
-  if data.length = 0 then .error .value else
   let offset := offset.getD 0
   if offset = 0 then Store.frombuffer data length
   else
@@ -195,31 +207,32 @@ def construct (cls : Cls) (k : Src) (data : Bytes) (length offset : Option Int) 
 def bytesProp (s : Store) : Except Err Bytes :=
   if s.len % 8 ≠ 0 then .error .value else .ok s.tobytes
 
-/-- The loop of `Bits.cut(bits)` with `start = end = count = None` (bits.py:1405-1415): `start_` advances by `bits`;
-    an empty chunk ends the iteration, a short chunk is yielded and ends it. -/
-def cutLoop (s : Store) (bits end_ : Nat) : Nat → Nat → List Store
+/-- The loop of `Bits.cut(bits)` with `start = end = count = None` (bits.py:1416-1426): `start_` advances by `bits`;
+    an empty chunk ends the iteration, a short chunk is yielded and ends it.  `self._slice` is
+    `self._bitstore.getslice`, i.e. it follows `options.lsb0`. -/
+def cutLoop (lsb0 : Bool) (s : Store) (bits end_ : Nat) : Nat → Nat → List Store
   | 0, _ => []
   | fuel + 1, start =>
-    let nextchunk := s.getslice (some (start : Int)) (some ((min (start + bits) end_ : Nat) : Int))   -- self._slice
+    let nextchunk := s.getsliceMode lsb0 (some (start : Int)) (some ((min (start + bits) end_ : Nat) : Int))
     if nextchunk.len = 0 then []
-    else nextchunk :: (if nextchunk.len ≠ bits then [] else cutLoop s bits end_ fuel (start + bits))
+    else nextchunk :: (if nextchunk.len ≠ bits then [] else cutLoop lsb0 s bits end_ fuel (start + bits))
 
 /-- `Bits.cut(bits)`: `_validate_slice(None, None) = (0, len)`; `bits <= 0` is a ValueError.
     (At most `len/bits + 1 ≤ len + 1` iterations.) -/
-def cut (s : Store) (bits : Nat) : Except Err (List Store) :=
-  if bits = 0 then .error .value else .ok (cutLoop s bits s.len (s.len + 1) 0)
+def cut (lsb0 : Bool) (s : Store) (bits : Nat) : Except Err (List Store) :=
+  if bits = 0 then .error .value else .ok (cutLoop lsb0 s bits s.len (s.len + 1) 0)
 
-/-- `Bits.tofile(f)` (bits.py:1507) with chunk size `chunk`: `for chunk in self.cut(chunk_size): f.write(chunk.tobytes())`. -/
-def tofile (chunk : Nat) (s : Store) : Except Err Bytes :=
-  (cut s chunk).map fun cs => cs.flatMap Store.tobytes
+/-- `Bits.tofile(f)` (bits.py:1518) with chunk size `chunk`: `for chunk in self.cut(chunk_size): f.write(chunk.tobytes())`. -/
+def tofile (lsb0 : Bool) (chunk : Nat) (s : Store) : Except Err Bytes :=
+  (cut lsb0 s chunk).map fun cs => cs.flatMap Store.tobytes
 
 /-- `tofile` as shipped: the chunk size extracted from the working tree on this run. -/
-def tofileDefault (s : Store) : Except Err Bytes := tofile Gen.tofileChunk s
+def tofileDefault (lsb0 : Bool) (s : Store) : Except Err Bytes := tofile lsb0 Gen.tofileChunk s
 
 /-! ### ALG: Array (array_.py:353-379) — `data` is an in-memory BitArray, `isz` the item size in bits -/
 
 def arrayTobytes (data : Bits) : Bytes := (Store.mem data).tobytes
-def arrayTofile (chunk : Nat) (data : Bits) : Except Err Bytes := tofile chunk (Store.mem data)
+def arrayTofile (lsb0 : Bool) (chunk : Nat) (data : Bits) : Except Err Bytes := tofile lsb0 chunk (Store.mem data)
 
 /-- How the file object is turned into bits by `Bits(f)` in `Array.fromfile`:
     an open file goes through `_setfile(f.name)`, a BytesIO through `frombytes(getvalue())`. -/
@@ -283,8 +296,8 @@ def out {α} (f : α → String) : Except Err α → String
 def chunkOf? (s : String) : Option Nat := if s = "-" then some Gen.tofileChunk else s.toNat?
 
 /-- The observations made on one object: its bits, `tobytes()`, the `bytes` property (`!` = refused), `tofile`. -/
-def observe (chunk : Nat) (s : Store) : Except Err String :=
-  (tofile chunk s).map fun written =>
+def observe (lsb0 : Bool) (chunk : Nat) (s : Store) : Except Err String :=
+  (tofile lsb0 chunk s).map fun written =>
     bitsToWire s.bin ++ " " ++ hexOfBytes s.tobytes ++ " "
       ++ (match bytesProp s with | .ok b => hexOfBytes b | .error _ => "!") ++ " " ++ hexOfBytes written
 
@@ -299,49 +312,54 @@ def fkindOf? : String → Option FKind
   | "bio" => some .bytesio
   | _ => none
 
+def flagOf? : String → Option Bool
+  | "0" => some false
+  | "1" => some true
+  | _ => none
+
 def handle (args : List String) : String :=
   match args with
-  -- obj <cls> <kind> <data> <off> <len> <chunk> …
-  | "obj" :: cls :: kind :: data :: off :: len :: chunk :: _ =>
-    match Cls.ofStr? cls, optIntOfStr? off, optIntOfStr? len, chunkOf? chunk with
-    | some c, some off, some len, some ch =>
+  -- obj <cls> <kind> <data> <off> <len> <chunk> <sink> <lsb0>
+  | "obj" :: cls :: kind :: data :: off :: len :: chunk :: _sink :: lsb0 :: _ =>
+    match Cls.ofStr? cls, optIntOfStr? off, optIntOfStr? len, chunkOf? chunk, flagOf? lsb0 with
+    | some c, some off, some len, some ch, some m =>
       if kind = "bin" ∨ kind = "cat" then
         match bitsOfStr? data with
-        | some b => out id (observe ch (finish c (Store.mem b)))
+        | some b => out id (observe m ch (finish c (Store.mem b)))
         | none => "bad-op"
       else if kind = "slc" then
-        -- object = full[off : off+len] of an in-memory object (0 ≤ off, off+len ≤ |full| on the wire)
+        -- object = full[off : off+len] of an in-memory object (msb0 cases only; 0 ≤ off, off+len ≤ |full|)
         match bitsOfStr? data, off, len with
-        | some b, some o, some n => out id (observe ch ((Store.mem b).getslice (some o) (some (o + n))))
+        | some b, some o, some n => out id (observe m ch ((Store.mem b).getslice (some o) (some (o + n))))
         | _, _, _ => "bad-op"
       else
         match srcOf? kind, bytesOfHex? data with
-        | some k, some d => out id ((construct c k d len off) >>= observe ch)
+        | some k, some d => out id ((construct c k d len off) >>= observe m ch)
         | _, _ => "bad-op"
-    | _, _, _, _ => "bad-op"
-  -- rt <wcls> <bits> <chunk> <rcls> <rkind> : tofile, then read back `length = len(bits)`
-  | "rt" :: _wcls :: bits :: chunk :: rcls :: rkind :: _ =>
-    match bitsOfStr? bits, chunkOf? chunk, Cls.ofStr? rcls, srcOf? rkind with
-    | some b, some ch, some rc, some k =>
-      out bitsToWire ((tofile ch (Store.mem b)) >>= fun written =>
+    | _, _, _, _, _ => "bad-op"
+  -- rt <wcls> <bits> <chunk> <rcls> <rkind> <lsb0> : tofile, then read back `length = len(bits)`
+  | "rt" :: _wcls :: bits :: chunk :: rcls :: rkind :: lsb0 :: _ =>
+    match bitsOfStr? bits, chunkOf? chunk, Cls.ofStr? rcls, srcOf? rkind, flagOf? lsb0 with
+    | some b, some ch, some rc, some k, some m =>
+      out bitsToWire ((tofile m ch (Store.mem b)) >>= fun written =>
         (construct rc k written (some (b.length : Int)) none).map Store.bin)
-    | _, _, _, _ => "bad-op"
-  -- arr <dtype> <isz> <bits> <chunk>
-  | "arr" :: _dt :: _isz :: bits :: chunk :: _ =>
-    match bitsOfStr? bits, chunkOf? chunk with
-    | some b, some ch =>
-      out id ((arrayTofile ch b).map fun w => hexOfBytes (arrayTobytes b) ++ " " ++ hexOfBytes w)
-    | _, _ => "bad-op"
-  -- afrom <dtype> <isz> <initial bits> <file hex> <n> <fkind>
+    | _, _, _, _, _ => "bad-op"
+  -- arr <dtype> <isz> <bits> <chunk> <lsb0>
+  | "arr" :: _dt :: _isz :: bits :: chunk :: lsb0 :: _ =>
+    match bitsOfStr? bits, chunkOf? chunk, flagOf? lsb0 with
+    | some b, some ch, some m =>
+      out id ((arrayTofile m ch b).map fun w => hexOfBytes (arrayTobytes b) ++ " " ++ hexOfBytes w)
+    | _, _, _ => "bad-op"
+  -- afrom <dtype> <isz> <initial bits> <file hex> <n> <fkind>            (msb0)
   | "afrom" :: _dt :: isz :: init :: file :: n :: fk :: _ =>
     match isz.toNat?, bitsOfStr? init, bytesOfHex? file, optIntOfStr? n, fkindOf? fk with
     | some isz, some b, some f, some n, some fk => out bitsToWire (arrayFromfile b isz f fk n)
     | _, _, _, _, _ => "bad-op"
-  -- art <dtype> <isz> <bits> <chunk> <fkind> : Array.tofile then Array(dtype).fromfile
+  -- art <dtype> <isz> <bits> <chunk> <fkind> : Array.tofile then Array(dtype).fromfile   (msb0)
   | "art" :: _dt :: isz :: bits :: chunk :: fk :: _ =>
     match isz.toNat?, bitsOfStr? bits, chunkOf? chunk, fkindOf? fk with
     | some isz, some b, some ch, some fk =>
-      out bitsToWire ((arrayTofile ch b) >>= fun w => arrayFromfile [] isz w fk none)
+      out bitsToWire ((arrayTofile false ch b) >>= fun w => arrayFromfile [] isz w fk none)
     | _, _, _, _ => "bad-op"
   | "big" :: _ => "skip"
   | _ => "bad-op"
